@@ -128,7 +128,7 @@ def run(ctx):
     return report.finish()
 
 
-def class_word_rule(ctx, report, rule="C02-R2"):
+def class_word_rule(ctx, report, rule="C02-R2", only_opt=False):
     """C02-R2 (values): on every successful path of Question::write_common / ResourceRecord::write_common the 16-bit word written
     after the type is  class code | 0x8000 iff the unicast-response / cache-flush flag is set, for every class value"""
     from tables import Evaluator, EnumVal, Opaque, NotATable, Extractor
@@ -161,6 +161,15 @@ def class_word_rule(ctx, report, rule="C02-R2"):
                 cases.append((rb, {"class": EnumVal("CLASS", n), "cache_flush": flag, "ttl": 300, "name": Opaque("name"),
                                    "rdata": EnumVal("RData", "A", [Opaque("a")])},
                               c, flag, "ResourceRecord", "class %s, cache_flush %d" % (n, flag)))
+        # the OPT pseudo-record carries the sender's UDP payload size in the CLASS slot, all 16 bits of it (RFC 6891 6.1.2): zero, every
+        # single bit, all ones and two common sizes stand for the 65536 values (a mask, a shift or a clamp shows on one of them)
+        if any(v["name"] == "OPT" for v in radt["variants"]):
+            for size in [0, 0xFFFF, 1232, 4096] + [1 << i for i in range(16)]:
+                cases.append((rb, {"class": EnumVal("CLASS", "IN"), "cache_flush": 0, "ttl": 0, "name": Opaque("name"),
+                                   "rdata": EnumVal("RData", "OPT", [{"udp_packet_size": size, "version": 0, "opt_codes": Opaque("codes")}])},
+                              size, 0, "ResourceRecord", "the OPT record with udp_packet_size %d" % size))
+    if only_opt:
+        cases = [c for c in cases if "OPT record" in c[5]]
     bad = []
     n = 0
     try:
